@@ -170,6 +170,7 @@ func (c C19) Run(t *tape.Tape, opt core.RunOpt) (res core.Result) {
 				sb.EmptyGroupErr = !sb.TimeoutErr && t.Bool(1, 4)
 			}
 			sb.ByValue = t.Bool(1, 4)
+			sb.Marks = t.Bool(1, 3)
 			w.AddSub(sb)
 			out := w.Subscribe(sb.ID)
 			d := fmt.Sprintf("subscribe(sub %d topic=%q sel=%s failFrom=%d dropped=%v) -> %s", sb.ID, sb.Topic, workload.SubSelections[sb.SelIndex].Sel, sb.FailFrom, sb.Dropped, out)
